@@ -32,6 +32,8 @@ const (
 	verifKPtrStruct
 	verifKPtrNamedStruct
 	verifKPtrPtrInt
+	verifKPtrSlice
+	verifKPtrMap
 	verifKSlice
 	verifKNamedSlice
 	verifKArray
@@ -85,6 +87,11 @@ func verifK1Type(tag string, side string) (types.Type, verifClass) {
 		return types.NewPointer(verifNamed(side+"S", pkg, structT)), verifClass{ptr: true}
 	case verifKPtrPtrInt:
 		return types.NewPointer(types.NewPointer(intT)), verifClass{ptr: true}
+	case verifKPtrSlice:
+		// (a nil pointer to a slice is no nil slice for goverter: *T -> T needs the setting for every T)
+		return types.NewPointer(types.NewSlice(intT)), verifClass{ptr: true}
+	case verifKPtrMap:
+		return types.NewPointer(types.NewMap(strT, intT)), verifClass{ptr: true}
 	case verifKSlice:
 		return types.NewSlice(intT), verifClass{list: true}
 	case verifKNamedSlice:
